@@ -235,6 +235,12 @@ def ResEquiv : Except Exc (PSet α × Option α) → Except Exc (PSet α × Opti
   | .ok (a, r), .ok (b, r') => PSet.Equiv a b ∧ r = r'
   | _, _ => False
 
+/-- Pointwise `ResEquiv` of two histories of the same length. -/
+def ResEquivAll : List (Except Exc (PSet α × Option α)) → List (Except Exc (PSet α × Option α)) → Prop
+  | [], [] => True
+  | a :: as, b :: bs => ResEquiv a b ∧ ResEquivAll as bs
+  | _, _ => False
+
 /-- Refinement of one step. -/
 def SetRefines (v : Callback α α) (s : PSet α) (op : Op α) : Prop :=
   ResEquiv ((TraitSet.step v s op).map SOut.proj) (setReference v s op)
